@@ -214,4 +214,19 @@ CONFIG = {
         "quick": {"checks": 12, "shards": 16},
         "thorough": {"checks": 400, "shards": 16, "timeout": 10800},
     },
+    "C10": {
+        "rule": "rapid-generated operation histories (1-14 operations: Append of 0-5 snapshots / Get / GetSince / LastDate / Assets) over four asset names (one never appended), the same "
+                "generator applied to the in-memory, file-system (fresh temp dir) and SQL (in-memory database/sql driver + matching dialect) repositories; snapshot fields are any finite "
+                "float64 (extremes, -0, subnormals, random bit patterns), whole-day UTC dates >= 2000-01-03 non-decreasing per asset (equal dates allowed), GetSince bounds on, just "
+                "before and just after existing dates. Oracle: a map name -> list model; after EVERY step every read of every name is compared (Get = list, GetSince = those dated >= "
+                "bound, LastDate = last date or error when empty, unknown name -> error, Assets: superset of names holding snapshots, subset of names ever appended, no duplicates), "
+                "floats bitwise, dates by Equal. Non-trivial: a bounded read hitting an equal date of an asset appended at least twice. Distinct = operation list.",
+        "technique": "stateful property-based testing (rapid) of three repository implementations against a map/list reference model, all observers after every step",
+        "level_text": "Generated operation histories are applied to each implementation and to a list model, with every read of every name compared after every step, so interactions (append after append, header-only files, equal-date boundaries, reads right after writes) are sampled. The SQL repository is exercised over a harness-written conforming driver.",
+        "level_note": "Conformance of a real database/driver is assumed, as the property itself does. Asset names are plain file-name-safe identifiers.",
+        "assumptions": ["dates are whole UTC days from 2000 on and non-decreasing per asset, as the CSV date format, the SQL Get bound and Sync presuppose"],
+        "gomaxprocs": [2],
+        "quick": {"checks": 400, "shards": 8},
+        "thorough": {"checks": 15000, "shards": 16, "timeout": 7200},
+    },
 }
